@@ -22,6 +22,8 @@ package clusterinfo
 //@   requires c != nil
 //@   ensures[partial-count] result0 != nil ==> ipartialCount(result1, len(lookupdHTTPAddrs))
 //@   ensures[shape] result1 == nil || ipartial(result1) || result0 == nil
+// (round 5, area H) what the topic look-up returned is recorded (r5HTopicsErr: error of the most recent GetLookupdTopics / GetNSQDTopics call)
+//@   onreturn r5HTopicsErr := result1
 
 //@ func (c *ClusterInfo) GetLookupdTopicChannels(topic string, lookupdHTTPAddrs []string) ([]string, error)
 //@   props C18
@@ -68,6 +70,8 @@ package clusterinfo
 //@   requires c != nil
 //@   ensures[partial-count] result0 != nil ==> ipartialCount(result1, len(nsqdHTTPAddrs))
 //@   ensures[shape] result1 == nil || ipartial(result1) || result0 == nil
+// (round 5, area H) what the topic look-up returned is recorded (r5HTopicsErr: error of the most recent GetLookupdTopics / GetNSQDTopics call)
+//@   onreturn r5HTopicsErr := result1
 
 //@ func (c *ClusterInfo) GetNSQDProducers(nsqdHTTPAddrs []string) (Producers, error)
 //@   props C18
@@ -105,3 +109,8 @@ package clusterinfo
 //@   requires c != nil
 //@   ensures[partial-count] result0 != nil || result1 != nil ==> ipartialCount(result2, len(producers))
 //@   ensures[shape] result2 == nil || ipartial(result2) || (result0 == nil && result1 == nil)
+// (round 5, area H) the channel map and the error handed back are recorded (r5HStatsMap / r5HStatsErr: results of the most recent call, r5HStatsCalls: number of calls) so that a caller's loop
+// invariants can name it (nsqadmin counterHandler ranges over it with a loop variable of the same name as the map).
+//@   onreturn r5HStatsMap := result1
+//@   onreturn r5HStatsErr := result2
+//@   onreturn r5HStatsCalls := r5HStatsCalls + 1
